@@ -553,6 +553,23 @@ class Checker:
         sigma = dict(outer)
         sigma.update({names[i]: nargs[i] for i in range(n)})
         fails = []
+        # input class of a (bound) failure, part of the check name: is the offending argument the caller's request, derived
+        # from a request through bare-variable bounds, or the helper's own choice; were there requests / projection requests
+        flavour = '' if not requested else '+proj' if any(v[0] in ('W', '*') for v in outer.values()) else '+req'
+        comp = list(range(n))
+        for i, np in enumerate(nparams):
+            if np[3] is not None and np[3][0] == 'V' and np[3][1] in names:
+                a_, b_ = comp[i], comp[names.index(np[3][1])]
+                comp = [b_ if c == a_ else c for c in comp]
+
+        def who(i):
+            a = nargs[i]
+            if i in req and (key(req[i]) == key(a) or (a[0] == 'W' and key(a[2]) == key(req[i]))):
+                return 'requested'
+            for j, r in req.items():
+                if j != i and comp[j] == comp[i] and (key(r) == key(a) or (r[0] == 'W' and key(r[2]) == key(a))):
+                    return 'derived'
+            return 'chosen'
         for i, np in enumerate(nparams):
             if np[3] is None:
                 continue
@@ -563,9 +580,7 @@ class Checker:
             if every != some:
                 self.ambiguous += 1
             if not some:
-                fails.append(('bound/' + ('requested-parameter' if i in req and key(req[i]) == key(nargs[i]) or (
-                    i in req and nargs[i][0] == 'W' and key(nargs[i][2]) == key(req[i])) else 'chosen-parameter'),
-                              i, 'argument %s of %s is not within the bound %s (declared %s)'
+                fails.append(('bound/' + who(i) + flavour, i, 'argument %s of %s is not within the bound %s (declared %s)'
                               % (show(nargs[i]), names[i], show(b), show(np[3]))))
         for i, r in req.items():
             a = nargs[i]
@@ -580,11 +595,11 @@ class Checker:
         ikey = (api, con_name, tuple(nparams), tuple(sorted((i, key(r)) for i, r in req.items())),
                 None if ec is None else tuple(sorted((k.name, tuple(v)) for k, v in ec)), for_tc, dis,
                 tuple(sorted((type(t).__name__, str(getattr(t, 'name', ''))) for t in pool)))
-        if not trivial:
-            self.nontrivial.add(hash(ikey))
         if len(self.samples) < 4 and req and any(a[0] == 'W' for a in nargs) and any(np[3] is not None for np in nparams):
             self.samples.append(desc)
         if not fails:
+            if not trivial:
+                self.nontrivial.add(hash(ikey))
             return
         if req:
             w = self.witness(nparams, names, req, outer, pool)
@@ -595,6 +610,7 @@ class Checker:
                 self.undecided += 1
                 return
             desc['consistent_completion'] = [show(x) for x in w]
+        self.nontrivial.add(hash(ikey))
         for kind, i, msg in fails:
             self.report(kind, api, call=desc, parameter=names[i], actual=msg,
                         expected='every argument within its substituted bound and every consistent request kept')
@@ -657,7 +673,6 @@ class Checker:
                 combos = itertools.product(base, repeat=k)
             for c in combos:
                 add(('P', g[1], tuple(c)))
-        add(('N',))
         return out
 
     def witness(self, nparams, names, req, outer, pool, budget=200000):
@@ -691,7 +706,15 @@ class Checker:
             if k == len(relevant):
                 return True
             i = relevant[k]
-            for c in cand:
+            own = []
+            if nparams[i][3] is not None:       # the helper may always pick the (substituted, variance-free) bound itself
+                sig = dict(outer)
+                sig.update({names[j]: a for j, a in assign.items()})
+                b = subst(nparams[i][3], sig)
+                if not (variables(b) & set(names)):
+                    own = [b, subst(nparams[i][3], {k_: (v[2] if v[0] == 'W' else v) for k_, v in sig.items()})]
+                    own = [x[2] if x[0] == 'W' else x for x in own if x[0] != '*']
+            for c in own + cand:
                 assign[i] = c
                 if rec(k + 1):
                     return True
@@ -1054,8 +1077,8 @@ SIZES = {
     # repetitions; (c) random sample
     'quick': dict(a_per={1: 40, 2: 10, 3: 3, 4: 60}, a_stride3=9, b_stride={1: 1, 2: 3, 3: 80}, b_mod=6, b_reps=1,
                   c=4000),
-    'thorough': dict(a_per={1: 400, 2: 100, 3: 12, 4: 600}, a_stride3=1, b_stride={1: 1, 2: 1, 3: 10}, b_mod=1,
-                     b_reps=2, c=200000),
+    'thorough': dict(a_per={1: 400, 2: 100, 3: 8, 4: 600}, a_stride3=1, b_stride={1: 1, 2: 1, 3: 20}, b_mod=1,
+                     b_reps=2, c=150000),
 }
 _SHAPES = {}
 
@@ -1122,10 +1145,12 @@ def synthetic_inputs(tier, seed):
 # ----------------------------------------------------------------------------------------------------------------------
 # generator-driven part
 
-GEN_SEEDS = {'quick': {'kotlin': list(range(8)), 'java': list(range(8)), 'scala': list(range(6)), 'groovy': list(range(4))},
+# quick: seeds whose generation is short (measured once as number of Python calls, a deterministic quantity)
+GEN_SEEDS = {'quick': {'kotlin': [2, 4, 5, 8, 9, 11, 14, 15, 19, 23], 'java': [0, 1, 2, 4, 5, 6, 7, 8, 9, 10, 12, 14],
+                       'scala': [0, 2, 3, 4, 7, 11], 'groovy': [0, 3, 4, 7, 10, 11]},
              'thorough': {'kotlin': list(range(80)), 'java': list(range(80)), 'scala': list(range(80)),
                           'groovy': list(range(40))}}
-WORK_BUDGET = 400000     # objects deep-copied by src.ir.types per program before the generation is cut off
+WORK_BUDGET = 150000     # objects deep-copied by src.ir.types per program before the generation is cut off
 
 
 class BudgetExceeded(BaseException):
@@ -1192,30 +1217,38 @@ def run_generator(E, chk, inp):
 # driver
 
 RULE = (
-    'contract of the C08 statement evaluated on the real instantiate_type_constructor / instantiate_parameterized_function / '
-    '_compute_type_variable_assignments (every call, nested ones included, through wrappers). Synthetic: all declaration '
-    'shapes with <= 3 type parameters (+4 four-parameter chains) whose bounds range over none / plain class / builtin / '
-    'parameterized ground / enclosing-scope variable / an earlier parameter bare or inside Foo<.>, Cov<out .>, Contra<in .>, '
-    'Pair<.,String>, Foo<Foo<.>> (backward references only; forward and F-bounded references are outside the bound), '
-    'declared variance invariant or one parameter out/in; 6 pools (declarations incl. abstract/interface/generic classes, '
-    'Kotlin and Java builtins incl. primitives, type-variable-only pool, Generator.get_types-like pool with bare '
-    'constructors); pre-assignments none / {} / every single request from 18 values (plain, parameterized, projections, '
-    'type variables, Nothing) / pairs / requests for enclosing-scope variables; variance maps None, {}, all-in, all-out, '
-    'all-off, all-on, first-on, last-off; options enable_pecs, disable_variance_functions, disable_variance on Con / '
-    'Function<n> / Array constructors; the three cfg.dis switch settings; RNG seeds via utils.random.r.seed(k) '
-    '(quick: a fixed stratified subsample of that product + 4000 VERIF_SEED-random points; thorough: the larger strides '
-    'of SIZES + 200000 random points). Generator: every call made while generating (and type-overwriting) the programs of '
-    'the listed (language, seed, switches). Subtyping oracle: specs/inst_ref.py Ref.sub (declarative, extended to type '
-    'variables; never the repository\'s is_subtype); for a projection argument (out and in alike) the projected type is '
-    'compared with the bound; where a bare-variable bound is instantiated by a projection the statement does not fix the '
-    'meaning, so a result counts as violation only if it fails under every reading (for-all / containment) -- such calls '
-    'are counted under `ambiguous`. A projection that a parameter merely inherits from the parameter it is bare-bounded by '
-    '(or from the caller\'s own request) is attributed to its origin. (bound)/(kept) failures are violations only if the '
-    'caller\'s requests are consistent, i.e. a completion inside the pool exists under every reading (found by search); '
-    'otherwise the call is counted out_of_domain. Exceptions of the real code produce no instantiation and are listed '
-    'under `exceptions` (C18 territory). Non-trivial input: the call returned and has a bounded or variant parameter, a '
-    'request, or a non-None variance map; distinct by (entry point, declaration, requests, effective variance map, '
-    'switches, pool).')
+    'Run-time contract of the C08 statement on the real instantiate_type_constructor / instantiate_parameterized_function / '
+    '_compute_type_variable_assignments; every call is checked through wrappers, nested instantiations included. '
+    'SYNTHETIC: all declaration shapes with <= 3 type parameters (+4 four-parameter chains); bounds: none / plain class / '
+    'builtin / ground parameterized / enclosing-scope variable / an earlier parameter bare or inside Foo<.>, Cov<out .>, '
+    'Contra<in .>, Pair<.,String>, Foo<Foo<.>>, Pair<T1,T2> (backward references only; forward / F-bounded references are '
+    'outside this bound); declared variance: all invariant or one parameter out/in; 6 pools (class declarations incl. '
+    'abstract / interface / generic ones, Kotlin and Java builtins incl. primitives, a type-variable-only pool, a '
+    'Generator.get_types-like pool with bare constructors); pre-assignments: none, {}, every single request out of 18 values '
+    '(plain, parameterized, out/in projections, type variables, Nothing), pairs of requests, requests for enclosing-scope '
+    'variables (a bare enclosing-scope bound is always pre-assigned: precondition of the helpers); variance maps None, {}, '
+    'all-in, all-out, all-off, all-on, first-on, last-off; options enable_pecs / disable_variance_functions / '
+    'disable_variance on constructors named Con, Function<n>, Array; the three cfg.dis settings; RNG seeded per call by '
+    'utils.random.r.seed(k). quick = a fixed stratified subsample of this product (strides in SIZES) + 4000 '
+    'VERIF_SEED-random points, thorough = denser strides + 150000 random points. '
+    'GENERATOR: every call made while generating and type-overwriting the programs of the fixed (language, seed, cfg.dis) '
+    'list (+ VERIF_SEED-random seeds), each program in a freshly forked process; a deterministic work guard (%d objects '
+    'deep-copied by src.ir.types) cuts off the rare very long generations (counted). '
+    'ORACLE: specs/inst_ref.py Ref.sub, a declarative relation read from the declarations and extended to type variables '
+    '(X <: T iff X == T or bound(X) <: T); never the repository\'s is_subtype / == / substitution. A projection argument '
+    '(out and in alike) is judged by its projected type. Where a bound mentions a parameter whose argument is a projection '
+    'the statement does not fix the meaning of the substituted bound: structural, capture (for-all) and variance-free '
+    'readings are evaluated side by side, a result is a violation only if it fails under all of them (`ambiguous` counts '
+    'the checks on which they disagree). A projection that a parameter inherits from the parameter it is bare-bounded by, '
+    'or from the caller\'s own request, is attributed to its origin. (bound)/(kept) failures are violations only if the '
+    'caller\'s requests are consistent, i.e. a completion from the pool (or forced by the requests) exists that passes '
+    'under every reading (exhaustive search); otherwise the call counts as out_of_domain. Exceptions of the real code '
+    'produce no instantiation and are listed under `exceptions` (C18 territory), not judged here. Check names carry the '
+    'input class of the failure (bound/<requested|derived|chosen>[+req|+proj], kept/<plain|projection>-request, '
+    'variance:<caller-choice|declared|switch|in-bound/<unbounded|var-bound|class-bound>>, arity, no-primitive, '
+    'no-bare-constructor). NON-TRIVIAL input: the call returned, is not out_of_domain and has a bounded or variant '
+    'parameter, a request or a non-None variance map; distinct by (entry point, declaration, requests, effective variance '
+    'map, switches, pool).' % WORK_BUDGET)
 
 
 def _partial(chk, counts, first, seconds):
